@@ -301,3 +301,108 @@ func DirectVersionOf(g *resolve.Graph, fullName, knownAs string) (version string
 	}
 	return version, len(seen)
 }
+
+// Files is the on-disk state of a case's manifest: the manifest itself and, for cases with a local parent
+// pom, parent.xml next to it.
+type Files struct {
+	Main   []byte
+	Parent []byte
+}
+
+// BaseFiles renders the case's original files.
+func (c *Case) BaseFiles() Files { return Files{Main: c.ManifestBytes(), Parent: c.ParentBytes()} }
+
+// PutFiles writes the files into dir and returns the manifest path.
+func (c *Case) PutFiles(dir string, f Files) (string, error) {
+	p, err := c.PutManifest(dir, f.Main)
+	if err != nil {
+		return "", err
+	}
+	if f.Parent != nil {
+		if err := os.WriteFile(filepath.Join(dir, "parent.xml"), f.Parent, 0o644); err != nil {
+			return "", err
+		}
+	}
+	return p, nil
+}
+
+// ReadFiles reads the files back from dir.
+func (c *Case) ReadFiles(dir string) (Files, error) {
+	var f Files
+	var err error
+	if f.Main, err = os.ReadFile(filepath.Join(dir, c.ManifestName())); err != nil {
+		return f, err
+	}
+	if c.Parent != nil {
+		if f.Parent, err = os.ReadFile(filepath.Join(dir, "parent.xml")); err != nil {
+			return f, err
+		}
+	}
+	return f, nil
+}
+
+// MaterialiseFiles is Materialise for Files (the writer may patch the parent pom as well).
+func (c *Case) MaterialiseFiles(dir string, base Files, ups []result.PackageUpdate) (Files, error) {
+	p, err := c.PutFiles(dir, base)
+	if err != nil {
+		return Files{}, err
+	}
+	if len(ups) == 0 {
+		return base, nil
+	}
+	rw, err := c.ReadWriter()
+	if err != nil {
+		return Files{}, err
+	}
+	m, err := guidedremediation.VerifParseManifest(p, rw)
+	if err != nil {
+		return Files{}, fmt.Errorf("parse: %w", err)
+	}
+	if err := guidedremediation.VerifWriteManifestPatches(p, m, []result.Patch{{PackageUpdates: ups}}, rw); err != nil {
+		return Files{}, fmt.Errorf("write: %w", err)
+	}
+	return c.ReadFiles(dir)
+}
+
+// ResolveFiles is ResolveBytes for Files.
+func (c *Case) ResolveFiles(dir string, f Files) (*Resolved, error) {
+	if f.Parent != nil {
+		if err := os.MkdirAll(dir, 0o755); err != nil {
+			return nil, err
+		}
+		if err := os.WriteFile(filepath.Join(dir, "parent.xml"), f.Parent, 0o644); err != nil {
+			return nil, err
+		}
+	}
+	return c.ResolveBytes(dir, f.Main)
+}
+
+// RequirementAt returns the version string of the manifest's requirement on fullName with the given Maven
+// classifier / artifact type and dependency ORIGIN attribute ("" = <dependencies>, "management", ...); n is the
+// number of such requirements. CountAll is the number of requirements on fullName under any origin.
+func RequirementAt(m guidedremediation.VerifManifest, fullName, classifier, artType, origin string) (version string, n int) {
+	for _, r := range m.Requirements() {
+		if r.Name != fullName {
+			continue
+		}
+		o, _ := r.Type.GetAttr(dep.MavenDependencyOrigin)
+		cl, _ := r.Type.GetAttr(dep.MavenClassifier)
+		at, _ := r.Type.GetAttr(dep.MavenArtifactType)
+		if o == origin && cl == classifier && at == artType {
+			version = r.Version
+			n++
+		}
+	}
+	return version, n
+}
+
+// CountAll is the number of requirements of the manifest on fullName, under any origin.
+func CountAll(m guidedremediation.VerifManifest, fullName string) int {
+	n := 0
+	for _, r := range m.Requirements() {
+		if r.Name == fullName {
+			n++
+		}
+	}
+	return n
+}
